@@ -117,8 +117,12 @@ def law_tag(c, fam, n=2):
     else:
         r = recs[0]
         c.holds(f'generator_family_is_{want[0]}', r[2][0] == want[0], note=str(r[2][0]))
-        kw = r[2][1]
-        c.holds('generator_parameters_are_those_of_the_own_density', c.And(*[same(kw[k], v) for k, v in want[1].items()]) and set(kw) >= set(want[1]))
+        kw = dict(r[2][1])
+        # scipy's defaults for parameters the call does not pass (loc = 0, scale = 1): an omitted parameter denotes that value
+        for k, dflt in (('loc', 0.0), ('scale', 1.0)):
+            if k in want[1] and k not in kw: kw[k] = dflt * np.ones(n)
+        c.holds('generator_receives_every_parameter_of_the_law', set(kw) >= set(want[1]), note=f"{sorted(kw)} vs {sorted(want[1])}")
+        c.holds('generator_parameters_are_those_of_the_own_density', c.And(*[same(kw[k], v) for k, v in want[1].items() if k in kw]))
 
 
 def rng_frame(c, fam):
